@@ -971,6 +971,9 @@ class Fxp():
                 _scaled_val = np.array([Fraction(int(v), 1 << -self.n_frac) for v in val.flat], dtype=object).reshape(val.shape)
             else:
                 _scaled_val = val * conv_factor
+                if isinstance(conv_factor, float) and val.dtype.kind == 'f' and np.any((_scaled_val == 0) & (val != 0)):
+                    # a product that underflows to zero keeps the sign of the value: floor and ceil depend on it
+                    _scaled_val = np.where((_scaled_val == 0) & (val != 0), np.copysign(np.finfo(float).tiny, val), _scaled_val)
             new_val = self._round(_scaled_val, method=self.config.rounding)
             if self.n_word > 53 and np.asarray(new_val).dtype.kind == 'f' and np.all(np.isfinite(new_val)):
                 # the limits of words beyond 53 bits are not exact doubles: rounded floating point values are compared
